@@ -1,6 +1,7 @@
 """C12: the controller matches entanglement responses to requests under any interleaving."""
 from __future__ import annotations
 
+import os
 import copy
 import json
 import shutil
@@ -37,6 +38,7 @@ def _mc(args):
 def run(prop: str, tier: str) -> int:
     V = C.Verdicts(prop, tier)
     tmp = C.tmpdir()
+    os.environ["VERIF_INSTRLOG_DIR"] = os.path.join(tmp, "instrlog")       # scenarios that switch the package's instruction logger on
     try:
         scns = epr_scn.scenarios(tier, HANDLER_VARIANT)
         # (1) design level: TLC explores every interleaving of every scenario; invariants + liveness
